@@ -4,8 +4,8 @@ import (
 	"fmt"
 	"os"
 	"path/filepath"
-	"sort"
 	"runtime"
+	"sort"
 	"strings"
 	"sync"
 	"sync/atomic"
@@ -184,7 +184,9 @@ func fsStep(st, in, out interface{}) (bool, interface{}) {
 }
 
 var fsModel = porcupine.Model{
-	Init:  func() interface{} { return &fsState{dirents: map[string]int{}, inodes: map[int]string{}, fds: map[int][2]int{}} },
+	Init: func() interface{} {
+		return &fsState{dirents: map[string]int{}, inodes: map[int]string{}, fds: map[int][2]int{}}
+	},
 	Step:  fsStep,
 	Equal: func(a, b interface{}) bool { return a.(*fsState).canon() == b.(*fsState).canon() },
 }
@@ -300,6 +302,10 @@ func runFs() {
 						for _, f := range myFds {
 							if f.append {
 								data := fmt.Sprintf("<%d.%d>", c, k)
+								if lr.Intn(16) == 0 {
+									// an append larger than any plausible internal chunk: must still be applied atomically
+									data = strings.Repeat(data, 70000/len(data)+1)
+								}
 								fd := f.fd
 								do(fsIn{Op: "append", Fd: int(fd), Data: data}, func() fsOut {
 									fs.Append(fd, []byte(data))
